@@ -229,6 +229,55 @@ pub fn run() {{
 }}"""
         mods.append((k, mod))
         meta[k] = (fields, skips, form, tw)
+    # field-level #[debug("...")]: the field's value is the formatted literal, whatever the outer formatter is configured
+    # to (std reference: the same builder call with &format_args!(<the literal>, ..)). Value kinds whose Debug text
+    # depends on the configuration x literal forms (bare `?`, positional, wrapped, own flags) x item forms.
+    FL_VALUES = {"I": ("i32", "255"), "V": ("Vec<i32>", "vec![10, 255]"), "A": ("A", "A"), "X": ("X", "X"),
+                 "S": ("dmn::S", "dmn::S { f: A }")}
+    FL_LITS = [("bare", "{%s:?}", ""), ("pos", "{:?}", ", %s"), ("wrapped", "<{%s:?}>", ""), ("pretty", "{%s:#?}", ""),
+               ("width", "{%s:6?}", ""), ("hex", "{%s:x?}", "")]
+    for vk, (vty, vval) in FL_VALUES.items():
+        for lk, lit, arg in FL_LITS:
+            if lk == "hex" and vk not in ("I", "V"):
+                continue
+            for form in ("named", "tuple", "variant_n"):
+                k = f"twin:fieldlit:{form}:{vk}:{lk}"
+                if replay and not json.load(open(replay))["key"].startswith(k):
+                    continue
+                fld = "_0" if form == "tuple" else "a"
+                l = lit % fld if "%s" in lit else lit
+                a = arg % fld if arg else ""
+                attr = f'#[debug("{l}"{a})] '
+                fa = f'&format_args!("{l}"{a})'
+                if form == "named":
+                    sdecl = (f"pub struct N {{ pub a: {vty}, pub b: i32 }}\nimpl Debug for N {{ fn fmt(&self, f: &mut Formatter<'_>) -> fmt::Result {{ "
+                             f'let a = &self.a; f.debug_struct("N").field("a", {fa}).field("b", &self.b).finish() }} }}')
+                    ddecl = f"#[derive(derive_more::Debug)] pub struct N {{ {attr}pub a: {vty}, pub b: i32 }}"
+                    ctor = f"N {{ a: {vval}, b: 7 }}"
+                elif form == "tuple":
+                    sdecl = (f"pub struct N(pub {vty}, pub i32);\nimpl Debug for N {{ fn fmt(&self, f: &mut Formatter<'_>) -> fmt::Result {{ "
+                             f'let _0 = &self.0; f.debug_tuple("N").field({fa}).field(&self.1).finish() }} }}')
+                    ddecl = f"#[derive(derive_more::Debug)] pub struct N({attr}pub {vty}, pub i32);"
+                    ctor = f"N({vval}, 7)"
+                else:
+                    sdecl = (f"pub enum N {{ V {{ a: {vty}, b: i32 }}, Other }}\nimpl Debug for N {{ fn fmt(&self, f: &mut Formatter<'_>) -> fmt::Result {{ "
+                             f'match self {{ N::V {{ a, b }} => f.debug_struct("V").field("a", {fa}).field("b", b).finish(), N::Other => f.write_str("Other") }} }} }}')
+                    ddecl = f"#[derive(derive_more::Debug)] pub enum N {{ V {{ {attr}a: {vty}, b: i32 }}, Other }}"
+                    ctor = f"N::V {{ a: {vval}, b: 7 }}"
+                rows = []
+                for sp in specs:
+                    rows.append('(%s, format!("{:%s?}", s::%s), format!("{:%s?}", d::%s)),' % (json.dumps(sp), sp, ctor, sp, ctor))
+                mod = f"""use super::*;
+pub mod dmn {{ use super::*; #[derive(derive_more::Debug)] pub struct S {{ pub f: A }} }}
+pub mod s {{ use super::*; {sdecl} }}
+pub mod d {{ use super::*; {ddecl} }}
+pub fn run() {{
+    let rows: Vec<(&str, String, String)> = vec![{' '.join(rows)}];
+    let bad: Vec<String> = rows.iter().filter(|(_, a, b)| a != b).map(|(sp, a, b)| format!("[{{}}, {{}}, {{}}]", q(sp), q(a), q(b))).collect();
+    println!("OBS {{{{\\"k\\": {{}}, \\"n\\": {{}}, \\"bad\\": [{{}}]}}}}", q({json.dumps(k)}), rows.len(), bad.join(", "));
+}}"""
+                mods.append((k, mod))
+                meta[k] = ([vk], set(), "fieldlit_" + form, None)
     # unit struct / unit variant / raw unit
     unit = """use super::*;
 pub mod s { use super::*; #[derive(Debug)] pub struct N; #[derive(Debug)] pub struct r#fn; #[derive(Debug)] pub enum E { Un, r#in } }
@@ -291,10 +340,10 @@ pub fn run() {
                 chk.deviation(k, "no observation", case={"key": k}, expected="runs", observed=o, tags={"kind": "crash"})
                 continue
             for sp, a, b in o["bad"]:
-                tuple_like = form in ("tuple", "variant_t")
+                tuple_like = form in ("tuple", "variant_t", "fieldlit_tuple")
                 other_opts = sp.replace("#", "") != ""
                 shown = [f for j, f in enumerate(fields) if j not in skips]
-                echoes = any(KINDS[f][3] for f in shown)
+                echoes = any(KINDS[f][3] for f in shown if f in KINDS) or form.startswith("fieldlit")   # (second field: i32)
                 # the recorded deviation shows in every tuple-like derive_more type that is reached in pretty mode
                 # with other options set: the type itself, or a nested derive_more tuple (kinds T, O)
                 nested_dm_tuple = any(f in ("T", "O") for f in shown)
